@@ -90,6 +90,7 @@ def model_validate(tab, s, d, pn, sp_, subdiff):
     alt = lambda c, alts, suf: any(has(c, a + suf) for a in alts.split("|"))
     if S["requires_no_datafit"]: return "refused"
     if S["refuses_sparse"] and sp_: return "refused"
+    if S.get("refuses_group_datafit") and has(D, "grp_ptr"): return "refused"
     if S["requires_groups"] and not all(has(c, a) for c in (D, P) for a in ("grp_ptr", "grp_indices")): return "refused"
     if S["checks_sparse_suffix"] and sp_ and not all(alt(D, a, "_sparse") for a in S["req_datafit"]): return "refused"
     if S["checks_subdiff"] and subdiff and not has(P, "subdiff_distance"): return "refused"
